@@ -217,8 +217,32 @@ class MachineGen:
             return self.list_expr(d - 1, pure) + "v" + r.choice(["›", "d", "N", "‹"])
         return self.int_expr(d - 1, pure) + "ɾ" + r.choice(["ƛd;", "'2<;", "v›", "~›"])
 
+    def str_expr(self, d, pure=False):
+        """text values: plain ASCII literals of the three kinds, concatenations with text and numbers,
+        reversal, first / last character, sums of lists of texts"""
+        r = self.r
+        k = r.random()
+        if d <= 0 or k < 0.45:
+            return r.choice(["`ab`", "`x y`", "‛hi", "\\a", "`Hello`", "``", "`a`", "`12`", "`it's`", "`\"`", "\\ ", "\\`"])
+        if k < 0.65:
+            return self.str_expr(d - 1, pure) + self.str_expr(d - 1, pure) + r.choice(["+", "J", "p", "+"])
+        if k < 0.8:
+            a, b = self.str_expr(d - 1, pure), self.int_expr(d - 1, pure)
+            return (a + b if r.random() < 0.5 else b + a) + r.choice(["+", "J", "+"])
+        if k < 0.9:
+            return self.str_expr(d - 1, pure) + r.choice(["Ṙ", "h", "t", "Ḣ", "Ṙ"])
+        return "⟨" + "|".join(self.str_expr(0, pure) for _ in range(r.randint(1, 3))) + "⟩∑"
+
     def expr(self, d, pure=False):
-        return self.list_expr(d, pure) if self.r.random() < 0.4 else self.int_expr(d, pure)
+        k = self.r.random()
+        if k < 0.12:
+            return self.str_expr(d, pure)
+        if k < 0.17:       # comparisons / measurements of text leave numbers; lists holding text
+            return self.r.choice([self.str_expr(d - 1, pure) + self.str_expr(d - 1, pure) + self.r.choice("=<>≤≥≠"),
+                                  self.str_expr(d, pure) + self.r.choice(["L", "₂", "₃", "¬", "ḃ"]),
+                                  "⟨" + self.str_expr(0, pure) + "|" + self.int_expr(0, pure).strip() + "⟩",
+                                  self.str_expr(d, pure) + "w" + self.int_expr(0, pure) + "J"])
+        return self.list_expr(d, pure) if k < 0.5 else self.int_expr(d, pure)
 
     # ---- statements ----
     def stmt(self, d, in_loop=False, in_lambda=False):
